@@ -105,7 +105,8 @@ def arg_to_int(
         except Exception:
             raise invalid_arg_type(arg_description, "integer", value) from None
 
-    return value
+    # Normalize bool and other int subclasses, which NumPy would not treat as plain integers.
+    return int(value)
 
 
 def arg_to_uint(
